@@ -5,11 +5,13 @@ import (
 	"crypto/sha256"
 	"encoding/json"
 	"fmt"
+	"math"
 	"os"
 	"path/filepath"
 	"sort"
 	"strings"
 	"testing"
+	"time"
 
 	"github.com/honeytrap/honeytrap/event"
 )
@@ -27,6 +29,9 @@ func init() {
 type c07Emit struct {
 	Serial int `json:"serial"`
 	Pad    int `json:"pad"`
+	// Bad: an event the JSON encoder refuses (a NaN value): it cannot be logged - and must not take any other
+	// event with it
+	Bad bool `json:"bad,omitempty"`
 }
 
 func c07Config(maxsize int, bad bool) string {
@@ -74,6 +79,17 @@ func genC07(seed uint64, idx int, tier string) *Scenario {
 		sc.Params["prior"] = prior
 		class += "+restart"
 	}
+	unenc := !badStart && r.Chance(0.25) // some events of this run do not encode
+	if unenc {
+		class += "+unencodable"
+	}
+	if _, has := sc.Params["prior"]; has && maxsize <= 4096 && r.Chance(0.4) {
+		// the earlier run had rotated already, within the very second in which this one starts (a restart loop):
+		// its rotated files carry the names this run's first rotations would pick, and its last log file is at
+		// the limit, so that opening it rotates at once
+		sc.Params["prior_rotated"] = r.Range(1, 3)
+		class += "+rotated-this-second"
+	}
 	serial := 0
 	ns := r.Range(1, 3)
 	gaps := []int64{0, 0, 0, 10, 999, 1000, 1001, 1500, 5000}
@@ -115,7 +131,7 @@ func genC07(seed uint64, idx int, tier string) *Scenario {
 			if pad < 0 {
 				pad = 0
 			}
-			ej, _ := json.Marshal(c07Emit{Serial: serial, Pad: pad})
+			ej, _ := json.Marshal(c07Emit{Serial: serial, Pad: pad, Bad: unenc && r.Chance(0.2)})
 			a.Ops = append(a.Ops, Op{K: "emit", Exp: ej})
 			if g := gaps[r.Intn(len(gaps))]; g > 0 && !burst {
 				a.Ops = append(a.Ops, Op{K: "sleep", Ms: g})
@@ -183,6 +199,7 @@ type c07State struct {
 	started       int
 	rotated       map[string]string // rotated file name -> content hash when first seen
 	lastFault     int64
+	bad           map[string]bool // events the encoder refuses
 	invMsg        string
 	names         []string
 	files         [][]byte
@@ -223,7 +240,7 @@ func runC07(t *testing.T, sc *Scenario) Result {
 	res := okResult()
 	stubHub.reset()
 	maxsize := sc.ParamInt("maxsize", 1024)
-	st := &c07State{sent: map[string]int64{}, sentStep: map[string]int{}, rotated: map[string]string{}}
+	st := &c07State{sent: map[string]int64{}, sentStep: map[string]int{}, rotated: map[string]string{}, bad: map[string]bool{}}
 	fsFaulted := false
 	obs := RunScenario(t, sc, func(w *World) {
 		w.PreBoot = func(dir string) {
@@ -244,6 +261,34 @@ func runC07(t *testing.T, sc *Scenario) Result {
 					buf.WriteString(line + "\n")
 					st.sent[key] = -1
 					st.returned++
+				}
+				if nrot := sc.ParamInt("prior_rotated", 0); nrot > 0 {
+					// fill the log file up to the limit and leave rotated files of this second behind
+					if pad := maxsize - buf.Len(); pad > 0 {
+						key := "prior:fill"
+						line := fmt.Sprintf(`{"category":"c07","date":"2000-01-01T00:00:00Z","pad":"","serial":%q,"token":"earlier-run-token-0"}`, key)
+						if p := pad - len(line) - 1; p >= 0 {
+							// (only when a whole line fits exactly: the earlier run respected the limit, too)
+							line = strings.Replace(line, `"pad":""`, `"pad":"`+strings.Repeat("p", p)+`"`, 1)
+							buf.WriteString(line + "\n")
+							st.sent[key] = -1
+							st.returned++
+						}
+					}
+					stamp := time.Now().Format("20060102150405")
+					for k := 0; k < nrot; k++ {
+						name := "events.log." + stamp
+						if k > 0 {
+							name += fmt.Sprintf(".%d", k)
+						}
+						key := fmt.Sprintf("priorrot:%d", k)
+						line := fmt.Sprintf(`{"category":"c07","date":"2000-01-01T00:00:00Z","pad":"pp","serial":%q,"token":"earlier-run-token-0"}`, key)
+						os.WriteFile(filepath.Join(st.logdir, name), []byte(line+"\n"), 0644)
+						st.sent[key] = -1
+						st.returned++
+					}
+					st.checkRotated() // they count as observed from the start
+					res.probe("restart-with-rotated-files-of-this-second", 1)
 				}
 				os.WriteFile(filepath.Join(st.logdir, "events.log"), buf.Bytes(), 0644)
 				res.probe("restart-on-existing-file", 1)
@@ -267,6 +312,11 @@ func runC07(t *testing.T, sc *Scenario) Result {
 				json.Unmarshal(op.Exp, &e)
 				key := fmt.Sprintf("%s:%d", w.Sc.Actors[ai].Name, e.Serial)
 				ev := event.New(event.Category("c07"), event.Custom("serial", key), event.Custom("pad", strings.Repeat("p", e.Pad)))
+				if e.Bad {
+					ev = event.New(event.Category("c07"), event.Custom("serial", key), event.Custom("pad", ""), event.Custom("ratio", math.NaN()))
+					st.bad[key] = true
+					res.fault("unencodable-event", 1)
+				}
 				st.sent[key] = w.nowMs()
 				st.sentStep[key] = w.step
 				q, ok := queues[ai]
@@ -410,6 +460,13 @@ func runC07(t *testing.T, sc *Scenario) Result {
 		if c > 1 {
 			res.Violate("event-logged-twice", site, fmt.Sprintf("event %s appears %d times", k, c))
 			return res
+		}
+		if st.bad[k] {
+			if c > 0 {
+				res.Violate("infra", "generator", "an event with a NaN value was logged: "+k)
+				return res
+			}
+			continue // cannot be encoded: it is the only event that may be missing because of that
 		}
 		if c == 0 {
 			if fsFaulted && st.sentStep[k] <= st.lastFaultStep {
